@@ -44,6 +44,8 @@ type txModel struct {
 	finalLost bool
 	// wrote: a modelled task changed rows before the end of the list
 	wrote bool
+	// noop: writing tasks without a reading, expected to change nothing
+	noop int
 }
 
 func (m *txModel) add(k string) {
@@ -83,7 +85,7 @@ func modelTx(op *Op, before dbState, rowids bool) *txModel {
 			m.params++
 		}
 		readOnly := t.Op == "readrows" || t.Op == "select"
-		bad := false
+		bad, unknownRef := false, false
 		mark := func(kind string) {
 			bad = true
 			m.documented = false
@@ -96,7 +98,11 @@ func modelTx(op *Op, before dbState, rowids bool) *txModel {
 				return s
 			}
 			if poisoned {
-				mark("symbols:adv")
+				// what the server substitutes here is not documented: the
+				// model cannot follow this task
+				unknownRef = true
+				m.add("symbols:adv")
+				m.documented = false
 				return s
 			}
 			if len(dictVal) == 0 {
@@ -242,15 +248,22 @@ func modelTx(op *Op, before dbState, rowids bool) *txModel {
 		default:
 			mark("task:adv")
 		}
-		if bad {
+		if bad || unknownRef {
 			switch {
 			case t.Op == "readrows":
 				// its result is not modelled; the state model is unaffected
 				m.hasFinal, m.finalLost = false, true
 			case t.Op == "select":
 				poisoned = true
+			case t.Op == "symbols":
+				poisoned = true
+			case unknownRef:
+				m.unknown = true
 			default:
-				m.hasReading = false
+				// A writing task without a reading must not change anything
+				// (it may also make the server reject the whole list): it is
+				// a no-op in the expected state.
+				m.noop++
 			}
 			continue
 		}
